@@ -768,12 +768,18 @@ namespace fastscapelib
             m_parent_basins[m_root] = m_root;
         }
 
+        // the tree may be a forest: some basins may not be connected to the root
+        // (e.g., sub-domain isolated by a mask and without any base level node)
+        std::vector<std::uint8_t> visited(nbasins, 0);
+        size_type next_start = 0;
+
         while (m_reorder_stack.size())
         {
             size_type node, parent;
             data_type pass_elevation, parent_pass_elevation;
             std::tie(node, parent, pass_elevation, parent_pass_elevation) = m_reorder_stack.back();
             m_reorder_stack.pop_back();
+            visited[node] = 1;
 
 
             for (size_t i = m_nodes_connects_ptr[node];
@@ -814,6 +820,19 @@ namespace fastscapelib
                                                 std::max(edg.pass_elevation, pass_elevation),
                                                 pass_elevation });
                 }
+            }
+
+            // restart from any basin that has not been visited yet
+            while (m_reorder_stack.empty() && next_start < nbasins)
+            {
+                if (!visited[next_start])
+                {
+                    m_reorder_stack.push_back({ next_start,
+                                                next_start,
+                                                std::numeric_limits<data_type>::min(),
+                                                std::numeric_limits<data_type>::min() });
+                }
+                ++next_start;
             }
         }
     }
